@@ -80,6 +80,30 @@ func (c *ConnRec) TakeN(n int, timeout time.Duration) ([]byte, bool) {
 	return out, true
 }
 
+// TakeFramed removes and returns the next IPFIX message of the stream, cut at the length field of
+// its own header (bytes 2..3), so that it does not depend on what the sender reported as written.
+// A header announcing fewer than 16 bytes cannot be framed: everything buffered is returned. If
+// hint (the sender's count) exceeds the announced length, the surplus is waited for briefly and,
+// if it is there, returned with the message (the caller's parser then sees the disagreement).
+// ok=false: the announced bytes did not arrive in time; what is there is returned, not removed.
+func (c *ConnRec) TakeFramed(hint int, timeout time.Duration) ([]byte, bool) {
+	hdr, ok := c.WaitLen(4, timeout)
+	if !ok {
+		return hdr, false
+	}
+	l := int(hdr[2])<<8 | int(hdr[3])
+	if l < 16 {
+		time.Sleep(20 * time.Millisecond)
+		return c.TakeN(c.Len(), timeout)
+	}
+	if hint > l {
+		if _, ok := c.WaitLen(hint, 300*time.Millisecond); ok {
+			return c.TakeN(hint, timeout)
+		}
+	}
+	return c.TakeN(l, timeout)
+}
+
 func (c *ConnRec) Bytes() []byte {
 	c.mu.Lock()
 	defer c.mu.Unlock()
